@@ -55,6 +55,8 @@ func modCheck(res *core.Result, prop string, s *session, when string, history []
 				res.Fail("C08", "untargeted-line-survives", "a directive line that no operation targeted lost its end-of-line comment or disappeared", "%s %s: line #%d (%s) not found with its end-of-line comment\nfile:\n%s\nhistory: %s", s.name, when, e.id, e.canon(), clipText(out), hist)
 			case pe.canon() != e.canon():
 				res.Fail("C08", "untargeted-line-survives", "a directive line that no operation targeted changed", "%s %s: line #%d was %s and is now %s\nhistory: %s", s.name, when, e.id, e.canon(), pe.canon(), hist)
+			case e.kind == "require" && !e.indirect && lineMentionsIndirect(l):
+				res.Fail("C08", "untargeted-line-survives", "the end-of-line comment of a direct requirement still contains indirect-marker text", "%s %s: line #%d (%s) has end-of-line comment %q\nhistory: %s", s.name, when, e.id, e.canon(), suffixText(l), hist)
 			case !hasLeadComments(l, nil, e.id, e.lead):
 				res.Fail("C08", "untargeted-line-survives", "a directive line that no operation targeted lost a leading comment", "%s %s: line #%d (%s) lost one of its %d leading comments\nfile:\n%s\nhistory: %s", s.name, when, e.id, e.canon(), e.lead, clipText(out), hist)
 			}
@@ -259,7 +261,10 @@ func c16Run(src *choice.Src) *core.Result {
 	res.Logf("C16: %s then %s\n%s", map[bool]string{true: "go.work", false: "go.mod"}[work], op, string(bytes0))
 
 	// the bulk setters iterate a Go map: repeat from identical state, outputs must be byte-identical
-	const reps = 4
+	reps := 4
+	if core.Replaying() {
+		reps = 32 // a replay samples the map order more often, so that an order-dependent result shows again
+	}
 	var outs [][]byte
 	for k := 0; k < reps; k++ {
 		x, err := parseReal(work, bytes0)
@@ -278,7 +283,9 @@ func c16Run(src *choice.Src) *core.Result {
 	}
 	for k := 1; k < reps; k++ {
 		if !bytes.Equal(outs[0], outs[k]) {
-			res.Fail("C16", "deterministic-output", "the same bulk set on the same file gives different files", "%s\nrun 0:\n%s\nrun %d:\n%s", op, clipText(outs[0]), k, clipText(outs[k]))
+			// the text must not depend on which repetition differed (map order is not under the simulator's control)
+			res.Logf("run 0:\n%s\nrun %d:\n%s", clipText(outs[0]), k, clipText(outs[k]))
+			res.Fail("C16", "deterministic-output", "the same bulk set on the same file gives different files", "%s: repeated from identical bytes the outputs differ (they depend on Go's map iteration order)\nfile before:\n%s", op, clipText(bytes0))
 			return res
 		}
 	}
@@ -295,9 +302,9 @@ func c16Run(src *choice.Src) *core.Result {
 			return res
 		}
 	}
-	res.Faults["map-order-repetition"] += reps
+	res.Faults["map-order-repetition"] += 4
 	res.Sig = choice.Mix(choice.MixString(string(bytes0)), choice.MixString(op.String()))
-	res.Sample = map[string]interface{}{"file": map[bool]string{true: "go.work", false: "go.mod"}[work], "before": clipText(bytes0), "operation": op.String(), "after": clipText(outs[0]), "repetitions": reps}
+	res.Sample = map[string]interface{}{"file": map[bool]string{true: "go.work", false: "go.mod"}[work], "before": clipText(bytes0), "operation": op.String(), "after": clipText(outs[0]), "repetitions": 4}
 	return res
 }
 
@@ -462,3 +469,13 @@ func init() {
 	core.ExpectProbes("C15", "session-with-persistence-point")
 	core.ExpectProbes("C16", "kept-line-with-comments-checked", "one-uncommented-require-statement")
 }
+
+func suffixText(l *modfile.Line) string {
+	var t []string
+	for _, c := range l.Suffix {
+		t = append(t, c.Token)
+	}
+	return strings.Join(t, " ")
+}
+
+func lineMentionsIndirect(l *modfile.Line) bool { return strings.Contains(suffixText(l), "indirect") }
